@@ -5,7 +5,8 @@ The real Gene.__init__ loads generated databases whose allele table is symbolic:
 each a subset of a 3-variant universe (substitution / substitution / insertion in three
 exons), per-variant functional flags, and a structural kind per allele (normal, left
 fusion, right fusion, whole-gene deletion, custom partial deletion); allele names and
-labels come from a list built to collide (2.001, 2.002, 20.001, label 2, ...).  The z3
+labels come from three lists built to collide (9.001 vs 10.001: natural vs string order;
+2.001, 2.002, 20.001 with labels 2, 2B, 20; 2.001, 20.001, 3.001).  The z3
 variables are concretised path by path by the engine (solver-driven exhaustive
 exploration) and on each path the invariants of the property are evaluated on the loaded
 object for both builds (opposite strands) and the two loads are compared in RefSeq terms.
@@ -33,7 +34,12 @@ OUTSIDE = ["more than 3 generated alleles besides *1, more than 3 variants; data
 ASSUMPTIONS = ["every path ends concrete: exhaustive within the bounds, not beyond"]
 RULE = ("cases = allele tables (subset masks x kinds x functional flags), enumerated by the "
         "solver; non-trivial = at least one non-empty allele; distinct = distinct table")
-NAMES = [("2.001", "2"), ("2.002", "2B"), ("20.001", "20"), ("3.001", None)]
+NAMESETS = [
+    [("9.001", "9"), ("10.001", "10"), ("2.001", "2")],      # natural vs string order
+    [("2.001", "2"), ("2.002", "2B"), ("20.001", "20")],     # same prefix, labels
+    [("2.001", "2"), ("20.001", None), ("3.001", None)],     # prefix of another name
+]
+NAMES = NAMESETS[1]
 KINDS = ["normal", "left", "right", "custom", "deletion"]
 UNIVERSE = [(15, "SNP2"), (50, "SNP4"), (80, "INS1")]
 
@@ -50,7 +56,8 @@ def configs(tier):
     K = 3 if tier == "thorough" else 2
     # partition by the kind of the first allele (parallelism)
     for k0 in range(len(KINDS)):
-        c.append({"kind": "gen", "K": K, "first": k0})
+        for ns in range(len(NAMESETS)):
+            c.append({"kind": "gen", "K": K, "first": k0, "names": ns})
     ship = [g for g in gengene.shipped_genes() if not g.startswith("pharma")]
     for i in range(4):
         c.append({"kind": "corpus", "genes": ship[i::4]})
@@ -66,8 +73,9 @@ def base_yaml():
     return y
 
 
-def table_yaml(y0, table, flags):
+def table_yaml(y0, table, flags, names=None):
     """table: list of (mask, kind) for alleles NAMES[j]; flags: functional per variant."""
+    NAMES = names or NAMESETS[1]
     y = copy.deepcopy(y0)
     seq = y["reference"]["seq"]
     other = {"A": "C", "C": "G", "G": "T", "T": "A"}
@@ -218,14 +226,14 @@ def run_gen(cfg):
     base.append(kinds[0] == cfg["first"])
     # at most one whole-gene deletion allele, listed last (a database property)
     base.append(z3.Sum([z3.If(k == KINDS.index("deletion"), 1, 0) for k in kinds]) <= 1)
-    tag = f"gen/K={K}/first={KINDS[cfg['first']]}"
+    tag = f"gen/K={K}/first={KINDS[cfg['first']]}/names={cfg.get('names', 1)}"
 
     def run():
         table = [(eng.choose(masks[j], range(8)), KINDS[eng.choose(kinds[j],
                                                                    range(len(KINDS)))])
                  for j in range(K)]
         fl = [eng.branch(f) for f in flags]
-        return table, fl, check_table(y0, table, fl)
+        return table, fl, check_table(y0, table, fl, cfg.get("names", 1))
 
     n = 0
     for dec, pc, (table, fl, probs) in eng.explore(run, base, max_paths=400000):
@@ -239,7 +247,8 @@ def run_gen(cfg):
         for k_, p in kinds_.items():
             res["violations"].append({
                 "what": f"table {table} functional={fl}: {p[1]}", "key": k_,
-                "replay": {"kind": "gen", "table": table, "flags": fl}})
+                "replay": {"kind": "gen", "table": table, "flags": fl,
+                           "names": cfg.get("names", 1)}})
         if len(res["samples"]) < 2:
             res["samples"].append({"table": table, "flags": fl, "problems": probs[:2]})
     seen = {}
@@ -264,8 +273,9 @@ def aspect(key):
     return "content"
 
 
-def check_table(y0, table, fl):
-    txt = table_yaml(y0, table, fl)
+def check_table(y0, table, fl, ns=1):
+    NAMES = NAMESETS[ns]
+    txt = table_yaml(y0, table, fl, NAMES)
     probs = []
     genes = {}
     for b in ("hg19", "hg38"):
@@ -330,7 +340,8 @@ def run_corpus(cfg):
 
 def replay(o):
     if o["kind"] == "gen":
-        probs = check_table(base_yaml(), [tuple(t) for t in o["table"]], o["flags"])
+        probs = check_table(base_yaml(), [tuple(t) for t in o["table"]], o["flags"],
+                            o.get("names", 1))
         return bool(probs), "; ".join(p[1] for p in probs[:3])
     gname = o["gene"]
     out = []
